@@ -23,7 +23,11 @@ pub fn run(shard: &Shard) -> i32 {
         if let Ok(j) = crate::util::J::parse(&std::fs::read_to_string(path).unwrap_or_default()) {
             let cj = j.get("case").cloned().unwrap_or(j);
             if cj.gets("kind") == Some("case_index") {
-                if let Some(i) = cj.geti("case_index") { by_index = Some(Shard { only_case: Some(i as u64), replay: None, seed: cj.geti("seed").unwrap_or(shard.seed as i64) as u64, ..shard.clone() }); }
+                if let Some(i) = cj.geti("case_index") { by_index = Some(Shard { only_case: Some(i as u64), replay: None, seed: cj.geti("seed").unwrap_or(shard.seed as i64) as u64,
+                    // the campaigns pick their mode from the shard number: replay as the shard that ran the case
+                    idx: cj.geti("shard_idx").unwrap_or((i % 16) as i64) as u64, n: cj.geti("shard_n").unwrap_or(16) as u64,
+                    tier: match cj.gets("tier") { Some("thorough") => crate::campaign::Tier::Thorough, Some(_) => crate::campaign::Tier::Quick, None => shard.tier },
+                    ..shard.clone() }); }
             }
         }
     }
